@@ -504,6 +504,20 @@ def i10(ctx, rid):
         ctx.ok(rid, key, h.where(), 'handler gives up only on kinds %s; %d of %d index reads in the open path are unconverted' % ('ALL' if kinds == 'ALL' else sorted(kinds), len(raw), n))
 
 
+def i11(ctx, rid):
+    """the bloom offset stored with an index opened from its file is the position of the bloom bytes in that file (C10.B16
+    instances, affine layout algebra): answers after a reopen + off-load equal the answers before"""
+    import props.c10 as c10
+    c10.b16(ctx, rid)
+
+
+def i12(ctx, rid):
+    """all versions of a key are returned from an index file exactly as from memory: the in-buffer walk always hands over to the
+    file walk (C09.P8 instance)"""
+    import props.c09 as c09
+    c09.p8(ctx, rid)
+
+
 RULES = [
     Rule('C03.I1', 'State::OnDisk is built from an opened file only after validate() ok with the blob file size as operand', i1, 2),
     Rule('C03.I2', 'every index gate tests written bit, version, key size, blob size (by equality) and magic with an error edge', i2, 5),
@@ -514,5 +528,7 @@ RULES = [
     Rule('C03.I7', 'new blob ids are above every id ever present (C07.H6 instances)', i7, 3),
     Rule('C03.I9', 'the regeneration scan locates record data after header and meta (C05.V7 instances)', i9, 1),
     Rule('C03.I10', 'a short (empty / cut) index file is regenerated: UnexpectedEof is converted at the read, or the open-error handler does not give up on it', i10, 1),
+    Rule('C03.I11', 'the bloom offset derived when an index file is opened equals the position of the bloom bytes (C10.B16 instances)', i11, 2),
+    Rule('C03.I12', 'the on-disk all-versions walk hands over to the file walk unless it saw the next key (C09.P8 instance)', i12, 1),
     Rule('C03.I8', 'the index file is written in two phases: the written flag is set only after the body append completed', i8, 1),
 ]
